@@ -73,7 +73,20 @@ def run(ctx, chk):
             ok = False
             got = "?"
             if len(r) == 1 and not r[0].guards:
-                fc = fresh_copy_then(r[0], an.norm_of(r[0]))
+                # the copy may be a crate constructor of its own (to_owned(lhs), Seq::from(&lhs.bs): rows of C06 / C04) whose `bv`
+                # field then receives the op-assign
+                raw = r[0].raw.ret
+                Nn = an.norm_of(r[0])
+                if isinstance(raw, tuple) and raw[0] == "upd" and len(raw) == 4:
+                    base0 = Nn(raw[1])
+                    fld, ids2 = an.peel_posts(raw[3])
+                    evs2 = [x for x in r[0].calls if x[3].idx in ids2]
+                    copy_ok = an.is_call(base0, "<seq::slice::SeqSlice<A> as std::borrow::ToOwned>::to_owned", (P(1),)) or \
+                        an.is_call(base0, re.compile(r"^CONV<&bitvec::slice::BitSlice(<[^>]*>)? -> seq::Seq<A>>$"), (("bits", P(1)),))
+                    got = "%s then %s" % (show(base0)[:80], [(short(x[0]), [show(a) for a in x[1][1:]]) for x in evs2])
+                    ok = bool(copy_ok) and [(short(x[0]), tuple(x[1][1:])) for x in evs2] == [(asg, (("bits", P(2)),))] and \
+                        len([x for x in r[0].calls if x[3].idx not in ids2]) == 1
+                fc = None if ok else fresh_copy_then(r[0], an.norm_of(r[0]))
                 if fc:
                     nb, eff = fc
                     got = "%s then %s" % (show(nb)[:60], [(e, [show(a) for a in ar]) for e, ar in eff])
